@@ -2238,6 +2238,18 @@ func (p *Parser) peekRune() rune {
 	return r
 }
 
+// peekComment reports whether the next two runes that would be read by the
+// scanner open a comment ("--" or "/*").
+func (p *Parser) peekComment() bool {
+	r := p.s.s.r
+	ch0, _ := r.read()
+	ch1, _ := r.read()
+	// Both runes go back, eof included: the reader's buffer replays them.
+	r.unread()
+	r.unread()
+	return (ch0 == '-' && ch1 == '-') || (ch0 == '/' && ch1 == '*')
+}
+
 func (p *Parser) parseSource(subqueries bool) (Source, error) {
 	m := &Measurement{}
 
@@ -2864,6 +2876,20 @@ func (p *Parser) parseRegex() (*RegexLiteral, error) {
 	nextRune := p.peekRune()
 	if isWhitespace(nextRune) {
 		p.consumeWhitespace()
+	}
+
+	// A comment is equivalent to whitespace: skip comments and the whitespace
+	// that follows them, so that the '/' of "/*" is not taken for the start
+	// of a regular expression and a comment does not hide one.
+	for p.peekComment() {
+		if tok, _, _ := p.Scan(); tok != COMMENT {
+			// Unterminated "/*": leave the ILLEGAL token to the caller.
+			p.Unscan()
+			return nil, nil
+		}
+		if isWhitespace(p.peekRune()) {
+			p.consumeWhitespace()
+		}
 	}
 
 	// If the next character is not a '/', then return nils.
